@@ -1,9 +1,13 @@
 import json
 
 from circuits.core import Event
+from circuits.core.events import generate_events
 
 
 META_EXCLUDE = set(dir(Event()))
+# handlers of generate_events are matched by name: a peer may send an event of
+# that name, but not the attributes the idle wait of the loop is taken from
+META_EXCLUDE.update(dir(generate_events(None, 0)))
 META_EXCLUDE.add('node_call_id')
 META_EXCLUDE.add('node_sock')
 META_EXCLUDE.add('node_protocol')
